@@ -240,20 +240,76 @@ func taskIdsOf(hooks []Hook) []int {
 
 // ---------------------------------------------------------------- per property
 
+// siblings: two to four calls awaited at ONE point (moment, weight) of the walk - triggered there
+// or earlier - with different latencies; the one that returns first fails critically, fails
+// non-critically or succeeds.  The await step must not return before all of them have returned.
+func addSiblings(r *gen.Rand, in *Input, moments []string) {
+	if len(moments) == 0 || len(in.Ops) == 0 {
+		return
+	}
+	mi := r.Intn(len(moments))
+	m := moments[mi]
+	w := weightPool[r.Intn(len(weightPool))]
+	point := m + wexpr(r, w)
+	n := r.Range(2, 4)
+	id := 0
+	for _, h := range in.Hooks {
+		if h.Id > id {
+			id = h.Id
+		}
+	}
+	first := id + 1
+	var ids []int
+	for k := 0; k < n; k++ {
+		id++
+		h := Hook{Id: id, Kind: "call", Trig: point, Await: point, Crit: r.Chance(1, 2)}
+		if k > 0 && mi > 0 && r.Chance(1, 3) { // started at an earlier moment, awaited here
+			h.Trig = moments[r.Intn(mi)] + wexpr(r, weightPool[r.Intn(len(weightPool))])
+		}
+		ids = append(ids, id)
+		in.Hooks = append(in.Hooks, h)
+	}
+	mode := r.Intn(3) // what the first one to return does
+	in.Hooks[len(in.Hooks)-n].Crit = mode == 0
+	for i := range in.Ops {
+		op := &in.Ops[i]
+		if mode != 2 {
+			op.Fail = append(op.Fail, first)
+		}
+		for k, h := range ids[1:] {
+			if k%2 == 0 {
+				op.Slower = append(op.Slower, h)
+			} else {
+				op.Slow = append(op.Slow, h)
+			}
+		}
+	}
+}
+
 func genC08(r *gen.Rand) (Input, string) {
 	init := r.Pick([]string{"STANDBY", "DEPLOYED", "DEPLOYED", "CONFIGURED", "CONFIGURED"})
 	p := walk(r, init, r.Range(1, 8), nil, true)
 	pf := hookProfile{maxHooks: 10, taskPct: 12, asyncPct: 45, critPct: 60, bogusPct: 4, destroyPct: 0}
 	hooks := genHooks(r, p.moments, pf)
 	in := Input{Level: "bare", Init: init, Hooks: hooks, Ops: p.ops}
+	kind := "order"
 	for i := range in.Ops {
 		in.Ops[i].Slow = subset(r, callIds(hooks, func(Hook) bool { return true }), 1, 4)
+		// a failing call must not change when its siblings are awaited: a third of the operations
+		// with a random quarter of the calls failing
+		if r.Chance(1, 3) {
+			in.Ops[i].Fail = subset(r, callIds(hooks, func(Hook) bool { return true }), 1, 4)
+		}
+	}
+	if r.Chance(1, 3) {
+		addSiblings(r, &in, p.moments)
+		kind = "siblings"
 	}
 	if r.Chance(3, 4) {
 		in.Ops = append(in.Ops, Op{Ev: "LEAVE_CANCEL"})
 	}
 	setTaskTimeouts(in.Hooks, in.Ops)
-	return in, "order"
+	return in, kind
 }
 
 var taskOutcomes = []string{"ok", "ok", "ok", "exit", "invol", "timeout", "late", "okslow", "trigfail"}
@@ -418,6 +474,27 @@ func corpus(prop string) ([]Input, []string) {
 			{Id: 1, Kind: "call", Trig: "before_CONFIGURE+1", Await: "before_CONFIGURE+5", Crit: true},
 			{Id: 2, Kind: "call", Trig: "leave_DEPLOYED", Await: "leave_DEPLOYED", Crit: true}},
 			Ops: []Op{{Ev: "CONFIGURE", Slow: []int{1}}, {Ev: "RESET"}, {Ev: "CONFIGURE"}, {Ev: "LEAVE_CANCEL"}}})
+		// the await step waits for EVERY call awaited at the point, whatever the first one to return
+		// does (seeded regression C08-2: early return on a critical error): at each of the four kinds
+		// of moments a fast call (critical failing / non-critical failing / succeeding) next to
+		// slower siblings, one of them started earlier, plus a probe at the following point
+		for _, m := range []string{"before_CONFIGURE", "leave_DEPLOYED", "enter_CONFIGURED", "after_CONFIGURE"} {
+			for mode := 0; mode < 3; mode++ {
+				hs := []Hook{
+					{Id: 1, Kind: "call", Trig: m + "+2", Await: m + "+2", Crit: mode == 0},
+					{Id: 2, Kind: "call", Trig: m + "+2", Await: m + "+2", Crit: false},
+					{Id: 3, Kind: "call", Trig: m + "+2", Await: m + "+2", Crit: true},
+					{Id: 4, Kind: "call", Trig: "before_CONFIGURE-7", Await: m + "+2", Crit: false},
+					{Id: 5, Kind: "call", Trig: m + "+3", Await: m + "+3", Crit: false},
+					{Id: 6, Kind: "call", Trig: "after_CONFIGURE+9", Await: "after_CONFIGURE+9", Crit: false}}
+				op := Op{Ev: "CONFIGURE", Slow: []int{2}, Slower: []int{3, 4}}
+				if mode != 2 {
+					op.Fail = []int{1}
+				}
+				add("siblings-"+m, Input{Level: "bare", Init: "DEPLOYED", Hooks: hs,
+					Ops: []Op{op, {Ev: "LEAVE_CANCEL"}}})
+			}
+		}
 		add("hooks_test-order", Input{Level: "bare", Init: "DEPLOYED", Hooks: []Hook{
 			{Id: 3, Kind: "call", Trig: "before_CONFIGURE+50", Await: "before_CONFIGURE+50", Crit: true},
 			{Id: 2, Kind: "call", Trig: "before_CONFIGURE+0", Await: "before_CONFIGURE+0", Crit: true},
